@@ -281,7 +281,12 @@ def run_entry(e, quick, acc):
                     if f.path and max(f.path) > 2 and f.path != last[f.base]:
                         continue  # long fixed groups: first two and last member
                     dom = raw_domain(f.typ, quick, False)
-                    if dom is None:
+                    if dom is None and f.typ[0] == "R":
+                        import struct as _st
+                        fmt = "<f" if f.size == 4 else "<d"
+                        vals = [0.0, -0.0, 1.0, -1.5, 0.1, float("inf"), float("-inf"), 1.5e-45 if f.size == 4 else 5e-324, 3.4028234e38 if f.size == 4 else 1.7976931348623157e308]
+                        raws = [_st.pack(fmt, v) for v in vals]
+                    elif dom is None:
                         raws = [b"\xff" * f.size, bytes([0x41]) * f.size]
                     else:
                         raws = [r.to_bytes(f.size, "little", signed=f.typ[0] == "I") for r in dom]
